@@ -1,12 +1,137 @@
 /- Driver operations of property C13 (ops are named "c13.<name>"). Core + Lean.Data.Json only. -/
 import Reamber.Util.Json
+import Reamber.Model.Rate
+import Reamber.Spec.Rate
 
 open Lean Reamber.J
 
 namespace Reamber.C13
 
-def handle (op : String) (_j : Json) : Except String Json :=
+open Reamber.Rate
+
+/-- cells on the wire: `null` NaN, `[n, d]` number, `"s"` string, `true/false`, `{"o": "…"}` opaque -/
+def cellOf? (j : Json) : Except String Cell :=
+  match j with
+  | Json.null => .ok .nan
+  | Json.str s => .ok (.str s)
+  | Json.bool b => .ok (.bool b)
+  | Json.arr _ => do .ok (.num (← ratOf? j))
+  | Json.num _ => do .ok (.num (← ratOf? j))
+  | Json.obj _ => do .ok (.other (← getStr j "o"))
+
+def cellToJson : Cell → Json
+  | .nan => Json.null
+  | .num q => ratToJson q
+  | .str s => Json.str s
+  | .bool b => Json.bool b
+  | .other s => obj [("o", Json.str s)]
+
+def frameOf? (j : Json) : Except String Frame := do
+  let cols ← getArr strOf? j "cols"
+  let rows ← getArr (arrOf? cellOf?) j "rows"
+  .ok ⟨cols, rows⟩
+
+def frameToJson (f : Frame) : Json :=
+  obj [("cols", listToJson Json.str f.cols), ("rows", listToJson (listToJson cellToJson) f.rows)]
+
+def metaOf? (j : Json) : Except String (List (String × Cell)) :=
+  arrOf? (fun p => match p with
+    | Json.arr #[k, v] => do .ok (← strOf? k, ← cellOf? v)
+    | _ => .error s!"meta entry expected [name, cell]: {p}") j
+
+def metaToJson (m : List (String × Cell)) : Json :=
+  listToJson (fun p => Json.arr #[Json.str p.1, cellToJson p.2]) m
+
+def chartOf? (j : Json) : Except String Chart := do
+  let lists ← getArr (fun p => match p with
+    | Json.arr #[k, v] => do .ok (← strOf? k, ← frameOf? v)
+    | _ => .error s!"list entry expected [name, frame]: {p}") j "lists"
+  let samples ← optOf? frameOf? (fieldD j "samples" Json.null)
+  let preview ← getOptRat j "preview"
+  let m ← metaOf? (fieldD j "meta" (Json.arr #[]))
+  .ok ⟨lists, samples, preview, m⟩
+
+def chartToJson (c : Chart) : Json :=
+  obj [("lists", listToJson (fun p => Json.arr #[Json.str p.1, frameToJson p.2]) c.lists),
+       ("samples", optToJson frameToJson c.samples), ("preview", optToJson ratToJson c.preview),
+       ("meta", metaToJson c.extra)]
+
+def setOf? (j : Json) : Except String MapSet := do
+  let maps ← getArr chartOf? j "maps"
+  let m ← metaOf? (fieldD j "meta" (Json.arr #[]))
+  .ok ⟨maps, ← getOptRat j "offset", ← getOptRat j "sample_start", ← getOptRat j "sample_length", m⟩
+
+def setToJson (s : MapSet) : Json :=
+  obj [("maps", listToJson chartToJson s.maps), ("offset", optToJson ratToJson s.offset),
+       ("sample_start", optToJson ratToJson s.sampleStart), ("sample_length", optToJson ratToJson s.sampleLength),
+       ("meta", metaToJson s.extra)]
+
+def gameOf? (s : String) : Except String Game :=
+  match s with
+  | "base" => .ok .base | "osu" => .ok .osu | "qua" => .ok .qua | "sm" => .ok .sm | "bms" => .ok .bms
+  | "o2j" => .ok .o2j | _ => .error s!"unknown game {s}"
+
+def kindOf? (s : String) : Except String SetKind :=
+  match s with
+  | "base" => .ok .base | "sm" => .ok .sm | _ => .error s!"unknown set kind {s}"
+
+def resToJson {α} (f : α → Json) : Except Err α → Json
+  | .ok v => okJson (f v)
+  | .error e => errJson e.toString
+
+def handle (op : String) (j : Json) : Except String Json := do
   match op with
+  -- model
+  | "c13.rate_chart" =>
+    let g ← gameOf? (← getStr j "game")
+    let r ← getRat j "r"
+    let c ← chartOf? (← field j "chart")
+    .ok (resToJson chartToJson (rateChart g r c))
+  | "c13.rate_set" =>
+    let g ← gameOf? (← getStr j "game")
+    let k ← kindOf? (← getStr j "kind")
+    let r ← getRat j "r"
+    let s ← setOf? (← field j "set")
+    .ok (resToJson setToJson (rateSet k g r s))
+  /- model: rate a then rate b -/
+  | "c13.rate_set2" =>
+    let g ← gameOf? (← getStr j "game")
+    let k ← kindOf? (← getStr j "kind")
+    let a ← getRat j "a"
+    let b ← getRat j "b"
+    let s ← setOf? (← field j "set")
+    .ok (resToJson setToJson (do let s1 ← rateSet k g a s; rateSet k g b s1))
+  -- specification, evaluated on an output (of the implementation)
+  | "c13.set_scales" =>
+    let g ← gameOf? (← getStr j "game")
+    let k ← kindOf? (← getStr j "kind")
+    let r ← getRat j "r"
+    let eps ← getRat j "eps"
+    let s ← setOf? (← field j "set")
+    let out ← setOf? (← field j "out")
+    .ok (okJson (obj [("holds", Json.bool (setScalesB eps k g r s out)),
+                      ("dom", Json.bool (setOk k g s && decide (0 < r)))]))
+  | "c13.chart_scales" =>
+    let g ← gameOf? (← getStr j "game")
+    let r ← getRat j "r"
+    let eps ← getRat j "eps"
+    let c ← chartOf? (← field j "chart")
+    let out ← chartOf? (← field j "out")
+    .ok (okJson (obj [("holds", Json.bool (chartScalesB eps g r c out)),
+                      ("dom", Json.bool (chartOk g c && decide (0 < r)))]))
+  /- the declarative result itself (for diagnostics in replays) -/
+  | "c13.scale_set" =>
+    let g ← gameOf? (← getStr j "game")
+    let k ← kindOf? (← getStr j "kind")
+    let r ← getRat j "r"
+    let s ← setOf? (← field j "set")
+    .ok (okJson (setToJson (scaleSet k g r s)))
+  /- plain comparison of two sets up to eps (identity / composition claims) -/
+  | "c13.close_set" =>
+    let eps ← getRat j "eps"
+    let a ← setOf? (← field j "want")
+    let b ← setOf? (← field j "got")
+    .ok (okJson (Json.bool (closeSet eps a b)))
   | _ => .error s!"unknown op {op}"
 
 end Reamber.C13
